@@ -103,3 +103,11 @@ Section Chain.
     - exact Himp.
   Qed.
 End Chain.
+
+(* a reference in a module-level attribute (fix 99e8f3d): its own scope is the module's scope and
+   the chain is the module followed by the anonymously imported modules *)
+Lemma module_level_chain_lem : forall mods f m,
+  find_module f mods = Some m ->
+  current_scope (Site f [] None) = CN f [] /\
+  visible_scopes mods (Site f [] None) = Some (CN f [] :: anonymous_imports m).
+Proof. intros mods f m H. split; [reflexivity|]. unfold visible_scopes. simpl. rewrite H. reflexivity. Qed.
